@@ -487,7 +487,7 @@ M("C10.open_new_without_create_new", ["C10"], "emitter/file/src/lib.rs",
 M("C10.reuse_without_recovery", ["C10"], "emitter/file/src/lib.rs",
   "            file_needs_recovery: true,", "            file_needs_recovery: false,", "C10.R4:try_open_reuse")
 M("C10.no_sync_parent", ["C10"], "emitter/file/src/lib.rs",
-  "        fs.sync_parent(file_path)?;", "        let _ = &fs;", "C10.R5:sync_parent")
+  "        // This is only important on some platforms and filesystems\n        fs.sync_parent(file_path)?;", "        // This is only important on some platforms and filesystems\n        let _ = &fs;", "C10.R5:sync_parent")
 
 # ---- C12 -------------------------------------------------------------------------------------------
 M("C12.double_pop(reverse of fix 6bba6ea)", ["C12"], "emitter/otlp/src/client.rs",
@@ -1007,7 +1007,7 @@ M("C13.sum_points_wrapping", ["C13"], "emitter/otlp/src/data/metrics.rs",
                 NumberDataPointValue::AsInt(AsInt(current.wrapping_add(value)))
             }""", "C13.R6:point-arithmetic")
 M("C10.sync_parent_outcome_dropped", ["C10"], "emitter/file/src/lib.rs",
-  "        fs.sync_parent(file_path)?;\n", "        let _ = fs.sync_parent(file_path);\n", "C10")
+  "        // This is only important on some platforms and filesystems\n        fs.sync_parent(file_path)?;\n", "        // This is only important on some platforms and filesystems\n        let _ = fs.sync_parent(file_path);\n", "C10")
 
 # ---- reverse patch of fix 4923149 (D21) and variants ---------------------------------------------------------------------------------
 M("C11.rev_fix_membership_bare_prefix_suffix", ["C11"], "emitter/file/src/lib.rs",
@@ -1180,7 +1180,7 @@ M('sweep11.macros.check_evt_props_ok', ['C02'], 'macros/src/span.rs',
 
 # ---- reverse patch of fix b2fa7b0 (D25: outer format flags reach hole values) ------------------------------------------------------------
 M("C16.rev_fix_hole_value_gets_outer_formatter", ["C16"], "core/src/template.rs",
-  "        self.write_fmt(format_args!(\"{}\", value))", "        fmt::Display::fmt(&value, self)", "C16.R2:hole-values-flag-neutral")
+  "        // flags the caller is formatting the template with to each hole\n        self.write_fmt(format_args!(\"{}\", value))", "        // flags the caller is formatting the template with to each hole\n        fmt::Display::fmt(&value, self)", "C16.R2:hole-values-flag-neutral")
 
 # ---- reverse patch of fix a125679 (D26: gRPC status only read from trailers) ---------------------------------------------------------------
 M("C12.rev_fix_grpc_status_trailers_only", ["C12"], "emitter/otlp/src/client.rs",
